@@ -462,6 +462,71 @@ func cmdImport(args []string) int {
 		os.RemoveAll(base)
 	}
 
+	// the shape of the file itself: one JSON document (blanks after it are fine) is imported; anything else -
+	// two documents one after the other, text after the document, a document cut short, nothing - is refused
+	// and leaves the database alone
+	{
+		hexKey := fmt.Sprintf("0x%x", keys[0][:])
+		f1 := &jFile{Version: "5", GVR: testGVR, Data: []jEntry{{Key: hexKey, Blocks: []jNum{{Text: "100"}}, Atts: []jAtt{{Src: "10", Tgt: "20"}}}}}
+		f2 := &jFile{Version: "5", GVR: testGVR, Data: []jEntry{{Key: hexKey, Blocks: []jNum{{Text: "200"}}, Atts: []jAtt{{Src: "40", Tgt: "50"}}}}}
+		d1, d2 := string(f1.JSON()), string(f2.JSON())
+		shapes := []struct {
+			name  string
+			raw   string
+			valid bool
+		}{
+			{"one document followed by blanks and a newline", d1 + "  \n", true},
+			{"two documents one after the other", d1 + d2, false},
+			{"two documents on two lines", d1 + "\n" + d2 + "\n", false},
+			{"a document followed by text", d1 + "xyz", false},
+			{"a document followed by an opening brace", d1 + "\n{", false},
+			{"a document cut short", d1[:len(d1)-1], false},
+			{"an empty file", "", false},
+		}
+		for _, sh := range shapes {
+			base, err := newBaseDir()
+			if err != nil {
+				return 2
+			}
+			fpath := filepath.Join(base, "import.json")
+			if err := os.WriteFile(fpath, []byte(sh.raw), 0o600); err != nil {
+				return 2
+			}
+			code, _ := bin.run(base, "--import-slashing-protection", "--slashing-protection-file", fpath, "--genesis-validators-root", testGVR)
+			var post *StoreView
+			var probeFail []string
+			if err := withRules(ctx, base, func(r *standardrules.Service) error {
+				var e error
+				post, e = readRaw(ctx, r, kt)
+				if e != nil {
+					return e
+				}
+				if code == 0 {
+					empty := &StoreView{Att: map[int]AttRec{}, Prop: map[int]int64{}}
+					probeFail = probeAfterImport(ctx, r, f1, empty, kt)
+					if !sh.valid {
+						probeFail = append(probeFail, probeAfterImport(ctx, r, f2, empty, kt)...)
+					}
+				}
+				return nil
+			}); err != nil {
+				fmt.Fprintln(os.Stderr, "shape:", err)
+				return 2
+			}
+			stats["fileshape."+fmt.Sprint(code == 0)]++
+			switch {
+			case sh.valid && code != 0:
+				monFail = append(monFail, fmt.Sprintf("file shape [%s]: a well-formed interchange file was refused (exit %d)", sh.name, code))
+			case !sh.valid && code != 0 && (len(post.Att) > 0 || len(post.Prop) > 0):
+				monFail = append(monFail, fmt.Sprintf("file shape [%s]: the import was refused (exit %d) but changed the empty database to %s", sh.name, code, fmtStore(post)))
+			}
+			for _, pf := range probeFail {
+				monFail = append(monFail, fmt.Sprintf("file shape [%s] %q: the import reported success, database afterwards %s: %s", sh.name, sh.raw, fmtStore(post), pf))
+			}
+			os.RemoveAll(base)
+		}
+	}
+
 	// cases file
 	var b strings.Builder
 	b.WriteString("From DV Require Import Corr.CheckImport.\nLocal Open Scope Z_scope.\nLocal Open Scope string_scope.\n")
